@@ -4,6 +4,7 @@
 package vh
 
 import (
+	"crypto/sha256"
 	"encoding/json"
 	"fmt"
 	"math/big"
@@ -267,3 +268,6 @@ func fmtObs(v any) string {
 	}
 	return fmt.Sprint(v)
 }
+
+// Sha256 is SHA-256 (an uninterpreted function for the executor).
+func Sha256(b []byte) [32]byte { return sha256.Sum256(b) }
